@@ -261,7 +261,12 @@ func (d *dsys) compare(o op, full bool) string {
 				continue
 			}
 			r, wd := shadow.Shown(sc.R)
-			comb := sc.Comb
+			var comb []rune
+			for _, c := range sc.Comb {
+				if !(c < ' ' || (c >= 0x7f && c < 0xa0)) { // control characters are no combining marks: not shown
+					comb = append(comb, c)
+				}
+			}
 			if wd == 2 {
 				covered = true
 				if x == W-1 {
@@ -274,7 +279,11 @@ func (d *dsys) compare(o op, full bool) string {
 			// touched only if changed
 			if !full && pc.stamp == pg.stamp && pc.drawn && !sc.ChangedSince {
 				prevWide := x > 0 && func() bool { _, pw := shadow.Shown(d.sh.At(x-1, y).R); return pw == 2 }()
-				if !prevWide {
+				// a change up to two columns to the left may have covered or uncovered this cell
+				// (a wide rune stored over the first half of another one uncovers that one's
+				// second column)
+				near := (x > 0 && d.sh.At(x-1, y).ChangedSince) || (x > 1 && d.sh.At(x-2, y).ChangedSince)
+				if !prevWide && !near {
 					return fmt.Sprintf("overdraw: cell (%d,%d) was drawn again although it did not change since the previous Show", x, y)
 				}
 			}
@@ -327,7 +336,7 @@ func draws() {
 		for x := 0; x < 4; x++ {
 			ops = append(ops, op{kind: "set", x: x, r: 'a'}, op{kind: "set", x: x, r: '世', st: 1})
 		}
-		ops = append(ops, op{kind: "set", x: 2, r: 'e', comb: []rune{0x0301}}, op{kind: "set", x: 0, r: 0x1b}, op{kind: "fill", r: 'b', st: 2}, op{kind: "clear"}, show, sync, op{kind: "suspendresume"})
+		ops = append(ops, op{kind: "set", x: 2, r: 'e', comb: []rune{0x0301}}, op{kind: "set", x: 1, r: 'b', comb: []rune{'\n', 0x0301, 0x9b}}, op{kind: "set", x: 0, r: 0x1b}, op{kind: "fill", r: 'b', st: 2}, op{kind: "clear"}, show, sync, op{kind: "suspendresume"})
 		scen["W-wide-4x1"] = ops
 	}
 	{
@@ -843,6 +852,59 @@ func fullQueue() {
 	}
 }
 
+// uncovered: a wide rune stored over the first half of another one uncovers that one's second
+// column: the page must show that column's own (blank) content again, on a row of w cells.
+func uncovered() {
+	if *hc.Shard != 0 {
+		return
+	}
+	for _, hist := range [][][2]int{{{5, '中'}, {-1, 0}, {4, '世'}, {-1, 0}}, {{2, '中'}, {-1, 0}, {1, '世'}, {-1, 0}}, {{3, '中'}, {2, '世'}, {-1, 0}, {1, '中'}, {-1, 0}, {0, 'a'}, {-1, 0}}} {
+		w.R.Evaluations++
+		w.AddDistinct(1)
+		s := newScreen(8, 1)
+		s.Show()
+		logical := []rune("        ")
+		cover := make([]bool, 8)
+		var names []string
+		for _, st := range hist {
+			if st[0] < 0 {
+				s.Show()
+				names = append(names, "Show")
+				continue
+			}
+			s.SetContent(st[0], 0, rune(st[1]), nil, tcell.StyleDefault)
+			names = append(names, fmt.Sprintf("SetContent(%d,0,%q)", st[0], rune(st[1])))
+			logical[st[0]] = rune(st[1])
+		}
+		// what is visible: walk the row the way every screen does
+		for x := 0; x < 8; x++ {
+			cover[x] = false
+		}
+		for x := 0; x < 8; x++ {
+			if _, wd := shadow.Shown(logical[x]); wd == 2 && x+1 < 8 {
+				cover[x+1] = true
+				x++
+			}
+		}
+		for x := 0; x < 8; x++ {
+			pc := pg.cells[[2]int{x, 0}]
+			want := string(logical[x])
+			if cover[x] {
+				want = ""
+			}
+			got := pc.s
+			if !pc.drawn {
+				got = " "
+			}
+			if got != want {
+				w.Violation("wasm-uncovered", fmt.Sprintf("8x1 screen, %v: the page holds %q in column %d, want %q (row of 8 cells: what a wide rune covers is empty, what it no longer covers shows its own content)", names, got, x, want), map[string]interface{}{"history": names})
+				break
+			}
+		}
+		s.Fini()
+	}
+}
+
 func main() {
 	w = hc.Start("C19")
 	w.R.Rule = "the package is compiled for GOOS=js GOARCH=wasm from the current tree (the check's build step; a compile error is reported with the compiler output); inside the wasm program under Node, with recording stand-ins for tcell.js: BFS (depth 4, thorough 5) over draw histories (wide-rune/combining/control alphabet 4x1, five-style alphabet 2x2 incl. basic, 256-palette and RGB colours, attributes, underline style/colour) comparing the page grid rebuilt from drawCell calls with the shadow model after every Show/Sync and requiring drawn cells to be changed cells; every name of WebKeyNames and six printable keys x 16 modifier combinations, modifier-only keys, both mouse callbacks x 4 button codes x 8 modifier sets x 8 enabled-flag sets, paste and focus callbacks enabled and disabled; all 340 orders of Suspend/Resume/SetSize/Fini up to length 4, each on a fresh screen, a call that returns with the screen lock held being detected by probing the lock (no wall clock); all sequences up to length 4 (5) over EnableMouse(all|buttons)/DisableMouse/EnablePaste/DisablePaste/EnableFocus/Suspend/Resume with key, click, motion, paste and focus callbacks probed after every step (a suspended screen must deliver nothing); with the page script running: after every Show/Sync of the draw histories the grid tcell.js has built (rows, columns, text, colours swapped under reverse, attribute and underline classes, underline colour, blink wrapper) equals what the draw calls since the last clear say, keys/paste (also characters outside the basic plane)/click/mousemove/focus/blur delivered as DOM events to its listeners become the right events, and all sequences up to length 4 of ShowCursor/HideCursor/SetSize/SetContent/Show throw nothing and leave the cursor class on exactly the requested on-screen cell. distinct_nontrivial = input cases + lifecycle sequences + draw states"
@@ -865,6 +927,7 @@ func main() {
 	lifecycle()
 	modes()
 	fullQueue()
+	uncovered()
 	for i := int64(0); i < w.R.States; i++ {
 		w.Distinct(uint64(*hc.Shard)<<40 | uint64(i))
 	}
